@@ -1394,8 +1394,8 @@ class WcParse(Generic[AnyStr]):
                     (''.join(content).replace('(?#)', '?:') if self.capture else ''.join(content)) +
                     (_EXCLA_GROUP_CLOSE.format(str(current[index])))
                 )
+                self.inv_ext -= 1
             index -= 1
-        self.inv_ext = 0
 
     def parse_extend(self, c: str, i: util.StringIter, current: list[str], reset_dot: bool = False) -> bool:
         """Parse extended pattern lists."""
